@@ -1,5 +1,6 @@
 """C04 - OASIS agrees with the specification (specification-level Coq model, both directions)."""
 CONFIG = {
+    "manifest": {'level_text': 'Same specification-level model as C02. Converse direction: every file gdstk writes (all option sets, CBLOCKs inflated by the harness) is decoded by the extracted strict decoder spec_oas_decode and must equal the dump of the library that was saved (property-level comparison with the file as failing input); END-record truth (length 256, table offsets, S_CELL_OFFSET, S_TOP_CELL, S_BOUNDING_BOX, S_MAX_*) is checked on the bytes. Forward direction: an independent specification-level random encoder (modal reuse vs explicit fields for every info-byte bit, XYRELATIVE, all repetition / point-list / real types, all 26 compact trapezoids, names inline or through tables placed before or after use, PAD, CBLOCK) produces files that read_oas must load to the layout the strict decoder assigns. Theorems: ctrapezoid_table_matches_spec (regenerated from the source on every run), table well-formedness for all 26 types and all w, h, detection soundness, per-record and whole-file round trips of the specification codec.', 'level_note': "reader_accepts_spec_oas for the real reader is decided per run on encoder-generated files, not by a theorem (no Coq model of read_oas). The specification model is a transcription made without the format document at hand; disagreements are triaged against gdstk's reader AND writer before being called defects. Known findings: S_TOP_CELL ignores Name-typed references; S_MAX_STRING_LENGTH ignores inline placement names.", 'technique': 'Coq theorems on the specification-level OASIS codec (table equality re-proved from the source each run) + extracted strict decoder as oracle on gdstk-written files + independent encoder against read_oas'},
     "prop_file": "Properties_C04",
     "extract_file": "Extract_C04",
     "extracted": ["c04"],
